@@ -119,6 +119,31 @@ pub fn edge_literals() -> Vec<String> {
             v.insert(format!("{}{}", s, m));
         }
     }
+    // long literals WITH separators (a literal has no length limit; conversion buffers do): zero-padded prefixed
+    // integers, grouped decimal floats, zero-padded exponents, around 64 / 128 / 309 characters
+    for n in [31usize, 32, 33, 62, 63, 64, 65, 66, 70, 100, 127, 128, 129, 200] {
+        for (prefix, one, max, over) in [("0x", "1", "7fffffffffffffff", "8000000000000000"), ("0o", "1", "777777777777777777777", "1000000000000000000000"), ("0b", "1", "111111111111111111111111111111111111111111111111111111111111111", "1000000000000000000000000000000000000000000000000000000000000000")] {
+            v.insert(format!("{}0_{}{}", prefix, "0".repeat(n.saturating_sub(2)), one));
+            v.insert(format!("{}{}_{}", prefix, "0".repeat(n), max));
+            v.insert(format!("{}{}_{}", prefix, "0".repeat(n), over));
+            v.insert(format!("{}{}{}", prefix, "0".repeat(n), max));
+        }
+        v.insert(format!("1_{}.0", "0".repeat(n - 1)));
+        v.insert(format!("-1_{}.5e-1_0", "0".repeat(n - 1)));
+        v.insert(format!("0.0_{}1", "0".repeat(n)));
+        v.insert(format!("1e{}_5", "0".repeat(n)));
+        v.insert(format!("1.{}e3_0_8", "0".repeat(n)));
+        v.insert(format!("1.{}e3_0_9", "0".repeat(n)));
+        v.insert(format!("1_{}", "0".repeat(n)));
+        v.insert(format!("9_223_372_036_854_775_807{}", "_0".repeat(n / 32)));
+    }
+    for n in [307usize, 308, 309, 310, 400] {
+        for sgn in ["", "-", "+"] {
+            v.insert(format!("{}1_{}.0", sgn, "0".repeat(n - 1)));
+            v.insert(format!("{}1{}.0", sgn, "_000".repeat(n / 3)));
+            v.insert(format!("{}1_{}e-1_0", sgn, "0".repeat(n - 1)));
+        }
+    }
     for sp in ["inf", "nan", "Inf", "NaN", "infinity", "in", "na", "INF"] {
         for s in ["", "+", "-", "--", "+-"] {
             v.insert(format!("{}{}", s, sp));
